@@ -134,6 +134,49 @@ def guarded(fn, limit=5):
     return "no-termination", 2 * limit
 
 
+def forked(fn, limit=20):
+    """Run fn() -> JSON-serialisable value in a forked child (native kahypar may abort the whole
+    process). Returns ("ok", value) | ("raises", msg) | ("no-termination", limit) |
+    ("process-killed", exit status)."""
+    rfd, wfd = os.pipe()
+    pid = os.fork()
+    if pid == 0:
+        code = 0
+        try:
+            os.close(rfd)
+            try:
+                with warnings.catch_warnings():
+                    warnings.simplefilter("ignore")
+                    out = ["ok", fn()]
+            except Exception as e:  # noqa: BLE001
+                out = ["raises", f"{type(e).__name__}: {str(e)[:160]}"]
+            with os.fdopen(wfd, "w") as f:
+                json.dump(out, f)
+        except BaseException:  # noqa: BLE001
+            code = 3
+        finally:
+            os._exit(code)
+    os.close(wfd)
+    t0 = time.time()
+    status = None
+    while time.time() - t0 < limit:
+        done, status = os.waitpid(pid, os.WNOHANG)
+        if done:
+            break
+        time.sleep(0.002)
+    else:
+        os.kill(pid, signal.SIGKILL)
+        os.waitpid(pid, 0)
+        os.close(rfd)
+        return "no-termination", limit
+    with os.fdopen(rfd) as f:
+        data = f.read()
+    if not data:
+        return "process-killed", "exit status %s" % status
+    st, val = json.loads(data)
+    return st, val
+
+
 # ------------------------------------------------------------------------------ independent oracles
 
 
@@ -238,6 +281,9 @@ def corner_nets():
         ("all-share-one-index", N([[0, 1], [0, 2], [0, 3], [0]], [0], {0: 2, 1: 2, 2: 3, 3: 2})),
         ("chain-with-scalars", N([[0, 1], [], [1, 2], [], [2, 3]], [0, 3], {i: 2 for i in range(4)})),
         ("repeated-and-dangling", N([[0, 0, 1], [1, 2, 3], [3]], [2], {0: 2, 1: 2, 2: 3, 3: 1})),
+        ("six-hadamard", N([[0, 1]] * 6, [0, 1], {0: 2, 1: 3})),
+        ("six-hadamard-plus-one", N([[0, 1]] * 6 + [[1, 2]], [0, 2], {0: 2, 1: 3, 2: 2})),
+        ("five-hadamard-and-chain", N([[0, 1]] * 5 + [[1, 2], [2, 3]], [0, 3], {0: 2, 1: 2, 2: 2, 3: 2})),
         ("twelve-scalars", N([[] for _ in range(12)], [], {})),
         ("twelve-disconnected-vectors", N([[i] for i in range(12)], list(range(12)),
                                           {i: 2 for i in range(12)})),
@@ -369,12 +415,26 @@ def run_finder(ctx, drv, net, netname, site, kind, label, thunk, params, case_ex
     if hkey in _HANGS:
         ctx.count("skipped_after_hang:%s/%s" % (site, label))
         return None
-    status, val = guarded(thunk)
+    def produce():
+        val = thunk()
+        if kind == "path":
+            return {"path": [[int(x) for x in s_] for s_ in val]}
+        tree = val
+        out = {"children": dump_children(tree), "N": int(getattr(tree, "N", -1)), "nested": None}
+        if tree_ok(n, out["children"]):
+            out["lin"] = [[int(x) for x in s_] for s_ in tree.get_path()]
+            out["ssa"] = [[int(x) for x in s_] for s_ in tree.get_ssa_path()]
+            out["nested"] = gen.bt_of_real(tree)
+        return out
+
+    if "kahypar" in label:
+        ctx.count("forked_calls")
+        status, val = forked(produce)
+    else:
+        status, val = guarded(produce)
     if status == "no-termination":
         _HANGS.add(hkey)
     sig = {"site": site, "label": label, "ntensors": net_class(net)}
-    if "sub_optimize" in params:
-        sig["variant"] = params["sub_optimize"]
     case = {"net": net.json(), "site": site, "label": label, "params": params}
     if case_extra:
         case.update(case_extra)
@@ -384,7 +444,7 @@ def run_finder(ctx, drv, net, netname, site, kind, label, thunk, params, case_ex
     ctx.count("ntensors:" + net_class(net))
     if status != "ok":
         ctx.count("outcome:" + status)
-        sig["error"] = status if status == "no-termination" else val.split(":")[0]
+        sig["error"] = status if status != "raises" else val.split(":")[0]
         if status == "raises":
             sig["detail"] = val.split(":", 1)[1].strip()[:60]
         ctx.violation(sig, {"case": case, "observed": [status, val]},
@@ -392,7 +452,7 @@ def run_finder(ctx, drv, net, netname, site, kind, label, thunk, params, case_ex
         return None
     ctx.count("outcome:ok")
     if kind == "path":
-        path = [[int(x) for x in s] for s in val]
+        path = val["path"]
         ok = valid_linear(n, path)
         if not ok:
             sig["error"] = "invalid-path"
@@ -403,16 +463,11 @@ def run_finder(ctx, drv, net, netname, site, kind, label, thunk, params, case_ex
         ctx.traces += 1
         if r.get("complete") is not True:
             ctx.corr_broken("Lean checkLinear rejects a path the independent oracle accepts", case)
-        return path
-    tree = val
-    children = dump_children(tree)
-    ok = tree_ok(n, children) and getattr(tree, "N", None) == n
-    paths_ok = True
-    lin = ssa = None
-    if ok:
-        st, lin = guarded(lambda: [[int(x) for x in s] for s in tree.get_path()])
-        st2, ssa = guarded(lambda: [[int(x) for x in s] for s in tree.get_ssa_path()])
-        paths_ok = st == "ok" and st2 == "ok" and valid_linear(n, lin) and valid_ssa(n, ssa)
+        return val
+    children = val["children"]
+    ok = tree_ok(n, children) and val["N"] == n
+    lin, ssa = val.get("lin"), val.get("ssa")
+    paths_ok = ok and valid_linear(n, lin) and valid_ssa(n, ssa)
     if not ok or not paths_ok:
         sig["error"] = "incomplete-tree" if not ok else "invalid-path-of-tree"
         ctx.violation(sig, {"case": case, "observed": {"children": children, "path": lin, "ssa": ssa}},
@@ -424,7 +479,7 @@ def run_finder(ctx, drv, net, netname, site, kind, label, thunk, params, case_ex
     ctx.traces += 1
     if r.get("complete") is not True or r1.get("complete") is not True or r2.get("complete") is not True:
         ctx.corr_broken("Lean checkers reject a tree / path the independent oracles accept", case)
-    return tree
+    return val
 
 
 # ------------------------------------------------------------------------------ explicit paths
@@ -516,7 +571,7 @@ def check_explicit(ctx, drv, net, netname, rng):
     left = n - sum(len(s) - 1 for s in path)
     if all(len(s) <= 2 for s in path) and left <= 2:
         r = drv.call("c05.from_path", n=n, path=send, ssa=ssa, autocomplete=True)
-        real = gen.bt_of_real(tree)
+        real = tree["nested"]
         ctx.traces += 1
         same = r.get("result") == "ok" and len(r.get("trees", [])) == 1 and \
             canon_tree(r["trees"][0])[0] == canon_tree(real)[0]
@@ -644,14 +699,14 @@ def check_kahypar_shortcuts(ctx, drv, rng):
         net = gen.rand_net(rng, nmin=2, nmax=6)
         nv = len(net.inputs)
         parts = nv + rng.randint(0, 3)
-        st, real = guarded(lambda: kfm(*args_of(net), parts=parts, seed=1))
+        st, real = forked(lambda: [int(x) for x in kfm(*args_of(net), parts=parts, seed=1)])
         want = "too_many_parts"
         onodes = []
     elif which == "no-edges":
         nv = rng.randint(3, 9)
         net = gen.Net([[i] for i in range(nv)], list(range(nv)), {i: 2 for i in range(nv)})
         parts = rng.randint(2, nv - 1)
-        st, real = guarded(lambda: kfm(*args_of(net), parts=parts, seed=1))
+        st, real = forked(lambda: [int(x) for x in kfm(*args_of(net), parts=parts, seed=1)])
         want = "round_robin"
         onodes = []
     else:
@@ -666,7 +721,7 @@ def check_kahypar_shortcuts(ctx, drv, rng):
             parts = nv - 1
             if parts < nv - k + 1:
                 return
-        st, real = guarded(lambda: kfm(*args_of(net), parts=parts, seed=1, fix_output_nodes=True))
+        st, real = forked(lambda: [int(x) for x in kfm(*args_of(net), parts=parts, seed=1, fix_output_nodes=True)])
         want = "fix_outputs"
     if st != "ok":
         ctx.violation({"site": "kahypar_subgraph_find_membership", "label": which, "ntensors": net_class(net),
@@ -881,6 +936,15 @@ def _rebuild(case):
 
 def replay(ctx, obj):
     case = obj.get("case", obj)
+    if "which" in case and "parts" in case:      # a kahypar short-circuit case
+        from cotengra.pathfinders.path_kahypar import kahypar_subgraph_find_membership as kfm
+        net = gen.Net.from_json(case["net"])
+        st, real = forked(lambda: [int(x) for x in kfm(*args_of(net), parts=case["parts"], seed=1,
+                                                       fix_output_nodes=(case["which"] == "fix-outputs"))])
+        if st != "ok" or len(real) != len(net.inputs):
+            print("# replay:", st, real)
+            return False
+        return True
     if "site" not in case:
         return True
     try:
@@ -889,14 +953,24 @@ def replay(ctx, obj):
         print("# replay: unknown site", case.get("site"))
         return True
     n = len(net.inputs)
-    st, val = guarded(thunk)
-    if st != "ok":
-        print("# replay:", st, val)
-        return False
-    if kind == "path":
-        return valid_linear(n, [[int(x) for x in s] for s in val])
-    ch = dump_children(val)
-    return tree_ok(n, ch) and valid_linear(n, [list(s) for s in val.get_path()])
+
+    def produce():
+        val = thunk()
+        if kind == "path":
+            return valid_linear(n, [[int(x) for x in s_] for s_ in val])
+        ch = dump_children(val)
+        return bool(tree_ok(n, ch) and valid_linear(n, [list(map(int, s_)) for s_ in val.get_path()]))
+    # finders drawing from an unseeded generator are tried repeatedly: one failure fails the property
+    unseeded = case.get("label") == "random" or case.get("site") in ("HyperOptimizer.search", "hyper_function")
+    for _ in range(25 if unseeded else 1):
+        st, ok = forked(produce) if "kahypar" in str(case.get("label")) else guarded(produce)
+        if st != "ok":
+            print("# replay:", st, ok)
+            return False
+        if not ok:
+            print("# replay: returned contraction is not valid/complete")
+            return False
+    return True
 
 
 def search(ctx):
